@@ -106,69 +106,8 @@ def run(R):
         n += 1
         NT = nthreads[0]
 
-        def classify(x, env, flag, depth=6):
-            """'n', 'n-1', or None for an integer expression under an assumed flag value"""
-            x = strip_casts(x)
-            if not isinstance(x, dict) or depth <= 0:
-                return None
-            if x.get("k") == "var":
-                if x.get("vid") == NT:
-                    return "n"
-                return dict(env).get(x.get("vid"))
-            if x.get("k") == "cond":
-                c, pol = strip_casts(x.get("c")), True
-                while isinstance(c, dict) and c.get("k") == "un" and c.get("op") == "!":
-                    c, pol = strip_casts(c.get("e")), not pol
-                if is_flag(c):
-                    return classify(x.get("t") if flag == pol else x.get("f"), env, flag, depth - 1)
-                return None
-            if x.get("k") == "bin" and x.get("op") == "-":
-                l = classify(x.get("l"), env, flag, depth - 1)
-                r = strip_casts(x.get("r"))
-                rv = const_val(r)
-                if rv is None and isinstance(r, dict) and r.get("k") == "cond" and is_flag(strip_casts(r.get("c"))):
-                    rv = const_val(r.get("t") if flag else r.get("f"))
-                if rv is None and is_flag(r):
-                    rv = 1 if flag else 0
-                if l == "n" and rv == 1:
-                    return "n-1"
-                if l in ("n", "n-1") and rv == 0:
-                    return l
-            return None
-
-        verdict = {}
-        for flag in (True, False):
-            dead = flag_false_edges(fn, is_flag) if flag else flag_true_edges(fn, is_flag)
-            seen_vals = set()
-
-            def transfer(pos, ev, st, flag=flag, seen_vals=seen_vals):
-                k = ev.get("k")
-                if k == "decl" and ev.get("vid") is not None and ev.get("init") is not None:
-                    d = dict(st)
-                    d[ev["vid"]] = classify(ev["init"], st, flag)
-                    return tuple(sorted(d.items(), key=lambda kv: kv[0]))
-                if k == "bin" and ev.get("op") in ("=", "-=") and isinstance(strip_casts(ev.get("l")), dict) and strip_casts(ev.get("l")).get("k") == "var":
-                    v = strip_casts(ev["l"])["vid"]
-                    d = dict(st)
-                    if ev["op"] == "=":
-                        d[v] = classify(ev.get("r"), st, flag)
-                    else:
-                        d[v] = "n-1" if (d.get(v) == "n" and const_val(ev.get("r")) == 1) else None
-                    return tuple(sorted(d.items(), key=lambda kv: kv[0]))
-                if k == "un" and ev.get("op") == "--" and isinstance(strip_casts(ev.get("e")), dict) and strip_casts(ev.get("e")).get("k") == "var":
-                    v = strip_casts(ev["e"])["vid"]
-                    d = dict(st)
-                    d[v] = "n-1" if d.get(v) == "n" else None
-                    return tuple(sorted(d.items(), key=lambda kv: kv[0]))
-                if k == "call" and ev.get("name") == "scheduleBulk":
-                    seen_vals.add(classify(ev["args"][0], st, flag))
-                return st
-
-            def refine(cond, pol, st, b, dead=dead):
-                return None if (b, 0 if pol else 1) in dead else st
-
-            dataflow.run(fn, (), transfer, refine, None)
-            verdict[flag] = seen_vals
+        from lib.rules import counts_under_flag
+        verdict = counts_under_flag(fn, NT, is_flag)
         ok = verdict[True] == {"n-1"} and verdict[False] == {"n"}
         R.ob("C15.caller-chunk", fn, bulk[0][1], ok, "scheduleBulk gets numThreads - 1 when the caller runs the last chunk, numThreads otherwise" if ok else
              "chunk count handed to the pool does not match the caller's share (wait: %s, no wait: %s)" % (sorted(map(str, verdict[True])), sorted(map(str, verdict[False]))),
